@@ -30,6 +30,16 @@ hist[.<tag>] <topology> <strategies> <ops> <config> <request> <tbl> <samples>
     the observation (same implementation / model lines as `plan`) is made on the state after the last op; a node object
     survives a refresh iff its datacenter, rack and position in the peer list (= address) are unchanged.
 
+refill[.<tag>] <S<k>|H<k>> <p|n> <script>     script := step (";" step)*, first step N.., last step W
+    N<nr>.<msb>  the node (re)starts with these sharding parameters (nr = 0: a node without shards); all connections die
+    P<nr>.<msb>  the parameters change for connections accepted from now on     A<s>,<s>..  shards of the next connections
+    M<d>         connections on the shard-aware port land on (source port + d) % nr     C<s>  the node closes the pooled
+    connection that serves shard s     W  wait until the pool has settled, then look
+  impl : the node's record of events and the looks, in order: `r<id>:<shard>/<nr>/<msb>[q]` | `r<id>:-[q]` (READY sent; q =
+         through the shard-aware port), `b<id>` (closed by the node), `D[cnt=<pool size>,nr=<n|->,<shard>:<conn id>:<reported>,..]`
+  model: runs `Refiller.step` on the events and CHECKS every look against its own buckets (size, published sharder, every
+         probe's connection is one `connectionForShard` can return from the MODEL's published pool, with the model's shard).
+
 pool <nr> <msb> <S<k>|H<k>> <p|n|q> <requested shards>      route <nr> <msb> <S<k>|H<k>> <p|n|q> <tokens>
     (q: the scripted server reports the NEXT shard for shard-aware-port connections; irrelevant to the model, which
      is given the pooled shards as the server knows them)
@@ -204,7 +214,7 @@ def runPlan (topo kss tabs cfg req tbl nSamples impl : String) : String :=
       nSamples.toNat? with
   | some ps, some ks, some tables, some cfg, some rq, some tbl, some _ =>
     if ps.any (fun p => (parseFlags p.2).isNone) then "bad-case" else
-    observe (mkRCluster ps ks tables) cfg rq tbl impl
+    observe (mkRCluster ps ks tables) cfg.1 rq tbl impl
   | _, _, _, _, _, _, _ => "bad-case"
 
 /-! ### hist cases: tablet updates interleaved with metadata refreshes -/
@@ -269,7 +279,7 @@ def runHist (topo kss opsS cfg req tbl nSamples impl : String) : String :=
     let rc0 := mkRCluster psFinal ks []
     let rc : RCluster := { rc0 with
       tables := declared.filterMap (fun d => (Tablets.alGet (ksName d.1, tblName d.2) inf.tables).map (fun t => (d, t.tablets))) }
-    observe rc cfg rq tbl impl
+    observe rc cfg.1 rq tbl impl
   | _, _, _, _, _, _, _ => "bad-case"
 
 /-! ### pool / route cases -/
@@ -328,12 +338,120 @@ def runPool (route : Bool) (nrS msbS sizeS portS reqS impl : String) : String :=
     | _ => "REJECT unparsable"
   | _, _, _, _ => "bad-case"
 
+/-! ### refill cases: the refiller model run on the node's own record of the connections -/
+
+/-- `r<id>:<shard>/<nr>/<msb>[q]` / `r<id>:-[q]` (a connection became ready; `q`: it came through the shard-aware
+port) and `b<id>` (the node closed the connection). -/
+def parseRefillEvent (conns : List Conn) (tok : String) : Option (PoolEvt × List Conn) :=
+  if tok.startsWith "b" then
+    match (tok.drop 1).toString.toNat? with
+    | some id => (conns.find? (fun c => c.id == id)).map (fun c => (.broken c, conns))
+    | none => none
+  else if tok.startsWith "r" then
+    let requested := tok.endsWith "q"
+    let body := if requested then (tok.dropEnd 1).toString else tok
+    match (body.drop 1).toString.splitOn ":" with
+    | [idS, infoS] =>
+      match idS.toNat? with
+      | none => none
+      | some id =>
+        let info : Option (Option ShardInfoM) :=
+          if infoS == "-" then some none
+          else match infoS.splitOn "/" with
+            | [sh, nr, msb] => match sh.toNat?, nr.toNat?, msb.toNat? with
+              | some sh, some nr, some msb => if msb < 256 then some (some ⟨sh, nr, UInt8.ofNat msb⟩) else none
+              | _, _, _ => none
+            | _ => none
+        info.map (fun i => let c : Conn := ⟨id, i⟩; (.ready c requested, c :: conns))
+    | _ => none
+  else none
+
+/-- Connections `connectionForShard` can return for this shard (over all random choices that matter). -/
+def possibleConns (p : PoolConns) (shard : Nat) : List Conn :=
+  let (nr, maxLen) : Nat × Nat := match p with
+    | .notSharded l => (1, l.length)
+    | .sharded s b => (s.nr, (b.map List.length).foldl max 0)
+  ((List.range (maxLen + 1)).flatMap (fun a => (List.range (nr + 1)).flatMap (fun b => (List.range (maxLen + 1)).map (fun c =>
+    connectionForShard p shard ⟨a, fun _ => (b, c)⟩)))).filterMap id |>.eraseDups
+
+/-- One look at the pool, `D[cnt=..,nr=..,<shard>:<conn id>:<reported shard|->,..]`, against the model's refiller. -/
+def checkDump (rf : Refiller) (items : List String) : Option String :=
+  match items with
+  | cntS :: nrS :: probes =>
+    let cntOk := cntS == s!"cnt={if rf.shared.isSome then rf.activeCount else 0}"
+    let nrM : String := match rf.shared with
+      | some (.sharded s _) => toString s.nr
+      | _ => "-"
+    if !cntOk then some s!"{cntS} but the model's pool holds {rf.activeCount} connections (published: {rf.shared.isSome})"
+    else if nrS != s!"nr={nrM}" then some s!"{nrS} but the model's published sharder has nr={nrM}"
+    else
+      (probes.filterMap (fun pr =>
+        match pr.splitOn ":", rf.shared with
+        | [_, "fail"], none => none
+        | [sh, "fail"], some _ => some s!"query for shard {sh} failed on a published pool"
+        | [shS, idS, repS], some p =>
+          match shS.toNat?, idS.toNat? with
+          | some sh, some id =>
+            match (possibleConns p sh).find? (fun c => c.id == id) with
+            | none => some s!"{pr}: connection {id} cannot be chosen for shard {sh}; candidates {(possibleConns p sh).map (·.id)}"
+            | some c =>
+              let rep := match c.info with | some i => toString i.shard | none => "-"
+              if rep == repS then none else some s!"{pr}: the model's connection {id} reports shard {rep}"
+          | _, _ => some s!"unparsable probe {pr}"
+        | _, _ => some s!"unexpected probe {pr}")).head?
+  | _ => some "unparsable dump"
+
+def parseRParams (s : String) : Option Unit :=
+  match s.splitOn "." with
+  | [nr, msb] => match nr.toNat?, msb.toNat? with
+    | some nr, some msb => if nr > 64 || msb ≥ 64 then none else some ()
+    | _, _ => none
+  | _ => none
+
+/-- The script grammar (the model takes the events from the node's record; the script only has to be well-formed). -/
+def rscriptOk (s : String) : Bool :=
+  let steps := s.splitOn ";"
+  let ok (st : String) : Bool :=
+    let rest := (st.drop 1).toString
+    if st.startsWith "N" || st.startsWith "P" then (parseRParams rest).isSome
+    else if st.startsWith "A" then ((rest.splitOn ",").mapM String.toNat?).any (fun l => l.all (· < 65536))
+    else if st.startsWith "M" || st.startsWith "C" then (rest.toNat?).any (· < 64)
+    else st == "W"
+  steps.all ok && (steps.head?.any (·.startsWith "N")) && steps.getLast? == some "W"
+
+def runRefill (sizeS portS script impl : String) : String :=
+  match parseSize sizeS with
+  | none => "bad-case"
+  | some size =>
+    let k := match size with | .perHost k => k | .perShard k => k
+    if k > 4 || !(portS == "p" || portS == "n") || !rscriptOk script then "bad-case" else
+    if impl.trimAscii.toString == "unstable-pool" then "unstable-pool" else
+    let rec go (toks : List String) (rf : Refiller) (conns : List Conn) : Option String :=
+      match toks with
+      | [] => none
+      | t :: rest =>
+        if t.startsWith "D[" && t.endsWith "]" then
+          match checkDump rf (((t.drop 2).toString.dropEnd 1).toString.splitOn ",") with
+          | some why => some why
+          | none => go rest rf conns
+        else match parseRefillEvent conns t with
+          | none => some s!"unparsable event {t}"
+          | some (e, conns') =>
+            match rf.step e with
+            | none => some s!"the model's refiller panics on {t} (bucket index out of range)"
+            | some rf' => go rest rf' conns'
+    match go (words impl) (Refiller.init size) [] with
+    | some why => "REJECT " ++ why
+    | none => impl.trimAscii.toString
+
 def run (case impl : String) : String :=
   match words case with
   | [head, topo, kss, tabs, cfg, req, tbl, nSamples] =>
     if head == "plan" || head.startsWith "plan." then runPlan topo kss tabs cfg req tbl nSamples impl
     else if head == "hist" || head.startsWith "hist." then runHist topo kss tabs cfg req tbl nSamples impl
     else "bad-case"
+  | [head, size, port, script] =>
+    if head == "refill" || head.startsWith "refill." then runRefill size port script impl else "bad-case"
   | [head, nr, msb, size, port, reqs] =>
     if head == "pool" || head.startsWith "pool." then runPool false nr msb size port reqs impl
     else if head == "route" || head.startsWith "route." then runPool true nr msb size port reqs impl
